@@ -372,6 +372,7 @@ var soupFragments = []string{
 	"let", "function", "if", "else", "while", "for", "return", "true", "false", "null", "lets", "iff", "a", "b1", "$", "_", "x$y",
 	"pow", "defer", "typeof", "PI", "mod", "unless", "of",
 	" ", "  ", "\t", "\n", "\r", "\r\n", "\n\n",
+	"\"a\nb\"", "'\n'", "\"\r\n\"", "`\n`",
 	// byte sequences a "helpful" lexer might strip, skip or normalise: BOM, NBSP, other Unicode spaces and line
 	// terminators, zero-width characters, numeric separators, HTML-like and hashbang comments, form feed / vertical tab
 	"\xef\xbb\xbf", "\xef\xbb", "\xc2\xa0", "\xe2\x80\xa9", "\xe2\x80\x8b", "\xe3\x80\x80", "\x0b", "\x0c", "\x85", "1_000", "0x1_f", "1__0", "1_", "_1",
